@@ -38,6 +38,15 @@ def gen_cases(tier, seed):
                 cases.append(common.mk(content, tag='boost', **kw))
                 if rng.random() < 0.35:
                     cases.append(common.mk(content, tag='noboost', boost_error=False, **kw))
+    # always (no sampling): the versions around the steps of the character count indicator (10, 27) and the largest
+    # one, version left to the library, every mode and level - one character more has to move on to the next
+    # version / a lower level
+    for (v, lv, mode, n) in gen.boundaries(('numeric', 'alphanumeric', 'byte', 'kanji')):
+        if v in (9, 10, 11, 26, 27, 28, 40):
+            for cnt in (n, n + 1):
+                cases.append(common.mk(gen.content_for_bits(mode, cnt), tag='boost-cci-step', error=lv, micro=False))
+                if lv == 'L':
+                    cases.append(common.mk(gen.content_for_bits(mode, cnt), tag='boost-cci-step', micro=False))
     # ECI: the 12 bit header belongs to the content the boosted level has to hold
     for (v, lv, mode, n) in gen.boundaries(('byte',)):
         if isinstance(v, str) or (tier == 'quick' and v > 6):
